@@ -20,3 +20,5 @@ import WtfModel.Props.C07c
 #print axioms Wtf.C07.best_first_sorted
 #print axioms Wtf.C07.best_first_reported_sorted
 #print axioms Wtf.C07.complete_sorted
+#print axioms Wtf.C07.fallback_tie_order
+#print axioms Wtf.C07.fuzzy_sort_closed_form
